@@ -397,6 +397,9 @@ class DocstringParser(AbstractDocstringParser):
                 griffe_node = griffe_node.functions[part]
             elif part in griffe_node.attributes:
                 griffe_node = griffe_node.attributes[part]
+            elif part in getattr(griffe_node, "overloads", {}):
+                # Overloaded functions without an implementation are only listed with their overloads
+                griffe_node = griffe_node.overloads[part][0]
             elif part == "__init__" and griffe_node.is_class:
                 return None
             else:  # pragma: no cover
